@@ -17,6 +17,9 @@ func (m *Machine) callBuiltin(th *Thread, b *ssa.Builtin, args []Value, caller *
 		case *SymStr:
 			return ts.Const(64, uint64(len(a.b)))
 		case SliceV:
+			if a.symLen != nil {
+				return a.symLen
+			}
 			return ts.Const(64, uint64(len(a.cells)))
 		case ArrayV:
 			return ts.Const(64, uint64(len(a.e)))
